@@ -10,14 +10,12 @@ REQUIRED = [
     "DaeVerif.C10.Props.resync_sends_nothing",
     "DaeVerif.C10.Props.listed_iff",
     "DaeVerif.C10.Props.unspecified_lists_nothing",
-    "DaeVerif.C10.Props.table_mirrors_cache_partial",
-    "DaeVerif.C10.Props.table_no_orphan_partial",
-    "DaeVerif.C10.Props.table_eq_spec_partial",
-    "DaeVerif.C10.Props.driver_mirror_flag_partial",
-    "DaeVerif.C10.Props.table_mirrors_tracker_always",
-    "DaeVerif.C10.Props.no_work_no_stale",
-    "DaeVerif.C10.Props.look_then_work_fresh",
-    "DaeVerif.C10.Props.table_mirrors_cache_full_fails",
+    "DaeVerif.C10.Props.table_mirrors_cache",
+    "DaeVerif.C10.Props.table_no_orphan",
+    "DaeVerif.C10.Props.table_eq_spec",
+    "DaeVerif.C10.Props.driver_mirror_flag",
+    "DaeVerif.C10.Props.table_mirrors_tracker",
+    "DaeVerif.C10.Props.unguarded_worker_breaks_mirror",
 ]
 
 HOOK_DECLS = '''
@@ -72,6 +70,7 @@ def run(ctx):
         "kernel hash-map semantics of domain_routing_map (batch update = upsert of every pair, batch delete = removal of every key) and success of the two batch syscalls — modelled as applyEmit; capacity exhaustion / syscall failure is not modelled",
         "checks/c10.py generates a copy of control/bpf_stub.go in which BpfMapBatchUpdate/Delete/DeleteAll forward to observer variables (overlay REPLACE; nothing else in the file changes)",
         "DnsCache.DomainBitmap is chosen by the generator instead of RoutingMatcher.MatchDomainBitmap (C11's subject); the production NewCache closure is otherwise reproduced field by field",
+        "atomic-step model: each cache operation (cache-map mutation + its tracker sync) is one step; goroutine schedules and reload steps are outside the property's quantifier",
         "the refresh worker goroutine and the janitor ticker are replaced by explicit `work` / `jan` ops that call the real processBpfUpdateTask / evictExpiredDnsCache; time is virtual (testing/synctest)",
     ]
     ctx.prove(["DaeVerif.C10.Props"], ["DaeVerif.C10.Props"], ["DaeVerif/C10/*.lean"], extra_targets=["c10drv"])
@@ -93,6 +92,7 @@ def run(ctx):
         streams[name] = (ops, impl, model)
 
     n_eval = 0
+    n_mirror_broken = 0
     distinct = set()
     for name, (ops, impl, model) in streams.items():
         mism = ctx.diff_streams(ops, impl, model, name)
@@ -114,13 +114,13 @@ def run(ctx):
                 # property-level oracle on the implementation: the shadow of the kernel table equals the
                 # specification evaluated on the real cache contents
                 if f.get("m") == "0":
-                    hist = history_of(lops, i + 1)
-                    if f.get("s") == "1":
-                        stale_hits.append((i + 1, op, im, hist))
-                    else:
-                        ctx.report(f"kernel table does not mirror the live cache after `{op[:160]}` (no stale deferred refresh involved): {im[:200]}",
-                                   {"stream": name, "line": i + 1, "op": op, "impl": im, "history": hist})
-    handle_stale_finding(ctx)
+                    n_mirror_broken += 1
+                    if n_mirror_broken <= 3:
+                        hist = history_of(lops, i + 1)
+                        ctx.report(f"kernel table does not mirror the live cache after `{op[:160]}`: {im[:200]}; history: " + " ; ".join(hist[-10:])[:900],
+                                   {"stream": name, "line": i + 1, "op": op, "impl": im, "history": hist,
+                                    "replay": "VERIF_SEED=%d ./check C10 %s" % (ctx.seed, ctx.tier)})
+    ctx.cov["mirror_broken_lines"] = n_mirror_broken
     handle_rollback_probe(ctx)
     handle_race_probe(ctx)
 
@@ -140,32 +140,12 @@ def run(ctx):
         evaluations=n_eval, distinct=len(distinct))
 
 
-stale_hits = []
-
-
 def history_of(ops, lineno):
     """ops of the history that contains line `lineno` (1-based), up to that line."""
     start = lineno - 1
     while start > 0 and not (ops[start].startswith("cnew") or ops[start] == "tnew"):
         start -= 1
     return ops[start:lineno]
-
-
-def handle_stale_finding(ctx):
-    """Suspected defect #14: processBpfUpdateTask re-applies a queued entry that has meanwhile been replaced or
-    removed.  The model reproduces it (tie agrees); the property-level oracle sees the table diverge."""
-    ctx.cov["stale_refresh_divergences"] = len(stale_hits)
-    if not stale_hits:
-        return
-    ln, op, im, hist = min(stale_hits, key=lambda x: len(x[3]))
-    what = ("deferred refresh (processBpfUpdateTask) re-applies a cache entry that was replaced/removed after it was queued: "
-            "the kernel table keeps addresses no live cache entry lists; shortest generated history: " + " ; ".join(hist[-8:]))
-    key = "c10-stale-async-refresh"
-    if any(k.get("kind") == "open" and k.get("key") == key for k in ctx.known):
-        ctx.report(what, {"line": ln, "op": op, "impl": im, "history": hist}, key=key)
-    else:
-        ctx.say(f"FINDING-CANDIDATE property=C10 key={key} {what[:600]}")
-        ctx.cov["finding_candidate"] = {"key": key, "what": what, "history": hist, "impl": im}
 
 
 def handle_rollback_probe(ctx):
@@ -184,15 +164,10 @@ def handle_rollback_probe(ctx):
         return
     if f.get("after_mirror") == "1":
         return
-    key = "c10-rollback-clear-keeps-tracker"
-    what = ("RebuildReloadDatapath clears domain_routing_map but keeps the generation's populated tracker: the cache replay "
-            "re-syncs every owner with the snapshot the tracker already holds and sends nothing, the table stays empty while the "
-            "cache is populated: " + line)
-    if any(k.get("kind") == "open" and k.get("key") == key for k in ctx.known):
-        ctx.report(what, {"probe": line}, key=key)
-    else:
-        ctx.say(f"FINDING-CANDIDATE property=C10 key={key} (outside the property's history alphabet) {what[:600]}")
-        ctx.cov.setdefault("finding_candidates_outside_alphabet", []).append({"key": key, "what": what})
+    what = ("reload rollback (outside C10's quantifier, see design_notes/C10.md): clearing domain_routing_map under a populated "
+            "tracker and replaying the cache sends nothing; " + line)
+    ctx.say("note: " + what[:400])
+    ctx.cov.setdefault("observations_outside_quantifier", []).append(what)
 
 
 def handle_race_probe(ctx):
@@ -210,12 +185,7 @@ def handle_race_probe(ctx):
         return
     if f.get("A_mirror") == "1" and f.get("B_mirror") == "1":
         return
-    key = "c10-nonatomic-store-and-sync"
-    what = ("the DNS cache map mutation and the domain-routing tracker sync of one cache operation are not atomic together: with a "
-            "removal interleaved inside a replacement (A) the table keeps an address no cached entry lists; with an insert interleaved "
-            "inside a removal (B) a cached entry's address is missing from the table: " + line)
-    if any(k.get("kind") == "open" and k.get("key") == key for k in ctx.known):
-        ctx.report(what, {"probe": line}, key=key)
-    else:
-        ctx.say(f"FINDING-CANDIDATE property=C10 key={key} (concurrency schedule, outside the property's sequential histories) {what[:600]}")
-        ctx.cov.setdefault("finding_candidates_outside_alphabet", []).append({"key": key, "what": what})
+    what = ("goroutine schedule (outside C10's quantifier, see design_notes/C10.md): a complete operation of another goroutine between "
+            "the cache-map mutation and the tracker sync of an operation on the same key; " + line)
+    ctx.say("note: " + what[:400])
+    ctx.cov.setdefault("observations_outside_quantifier", []).append(what)
